@@ -78,6 +78,12 @@ def make_oracle(prop):
         if prop == "C05" and len(s) and len(s) <= 8:
             df = pd.DataFrame({"a": s.reset_index(drop=True), "b": s.reset_index(drop=True)})
             fails += D.c05_one(ctx["std"], "StandardSet", df, "frame")
+            # column labels that are not strings (default integer labels, tuples, mixed): labels are part of the caller's data
+            for labels in ((0, 1), ((1, 2), "x"), (2.5, -5)):
+                df = pd.DataFrame({labels[0]: s.reset_index(drop=True), labels[1]: s.reset_index(drop=True)})
+                for f in D.c05_one(ctx["std"], "StandardSet", df, "frame"):
+                    f["frame_recipe"] = "pd.DataFrame({%r: (%s).reset_index(drop=True), %r: (%s).reset_index(drop=True)})" % (labels[0], item["recipe"], labels[1], item["recipe"])
+                    fails.append(f)
         seen, out = set(), []
         for f in fails:
             if (f["class"], f["backend"]) not in seen:
